@@ -11,6 +11,7 @@ from .wire import ATOMIC_BY_NAME
 
 ATOMS = ["SINT", "INT", "DINT", "LINT", "USINT", "UINT", "UDINT", "ULINT", "REAL", "LREAL", "BOOL"]
 INT_ATOMS = ["SINT", "INT", "DINT", "LINT", "USINT", "UINT", "UDINT", "ULINT"]
+RESERVED = set(ATOMS) | {"DWORD", "WORD", "BYTE", "LWORD", "STRING", "BIT", "PROGRAM", "ROUTINE", "TASK", "MAP", "CXN"}
 NAME_CHARS = "ABCDEFGHIJKLMNOPQRSTUVWXYZabcdefghijklmnopqrstuvwxyz0123456789_"
 
 
@@ -25,6 +26,9 @@ def rand_name(r, used, lo=1, hi=18, prefix=""):
             continue
         # names that the library's tag-list filter keys on must not appear by accident
         if s.lower() in used or s.upper() in ("CTL", "CONTROL", "LEN", "DATA"):
+            continue
+        # the names of the elementary types are reserved words of the controller: no tag, member or type is called INT
+        if s.upper() in RESERVED:
             continue
         # ".<digits>" is bit syntax; a member called e.g. "5" cannot exist anyway (starts with letter)
         used.add(s.lower())
